@@ -113,7 +113,7 @@ REGISTRY = {
              "what": "first-level recoveries with TTL on: crash images of TTL workloads whose expired-on-arrival generations have on-disk sizes ending in the last 200 bytes of a block and are followed by live records; the real recovery's result AND the device bytes it leaves (its retirement writes) must equal Model.Recovery.open_image, so a repair write that touches a block of a live record is a concrete failing image"},
         ],
         "nontrivial_rule": "a case is one second-level crash image (a crash inside a recovery of a crash image); non-trivial = recovered at least one key; distinct by (first-level plan, inner plan, contents)",
-        "assumptions": ["as C02; more than 1024 coalesced extents in one retirement call are not generated by this engine (finding F1, see DESIGN section 8)"],
+        "assumptions": ["as C02; retirement lists longer than one journal chunk come from the directed f1 engine only"],
     },
     "C05": {
         "title": "each data block has exactly one owner or is free",
@@ -288,6 +288,21 @@ REGISTRY = {
                         "the implementation-side oracle (no panic / no hang / no abort / unchanged on metadata-or-size rejection) is evaluated in a child process with a 20 s watchdog"],
     },
 }
+
+
+# ---- directed replay of finding F1 (fixed), part of C04 and C11 ----
+def _f1(seedoff):
+    return {"engine": "f1",
+            "quick": {"blocks": 4096, "fillers": 1500, "xkeys": 750, "cuts": 0, "narrow": 1, "seedoff": seedoff},
+            "thorough": {"blocks": 8192, "fillers": 2600, "xkeys": 1300, "cuts": 6, "seedoff": seedoff},
+            "oracle": True, "mismatch_is_failure": True, "timeout": 3400,
+            "nontrivial": lambda case, res: "level=2" in case and res.startswith("ok"),
+            "distinct_key": lambda case, res: case.split("plan=")[-1] + res,
+            "what": "directed replay of finding F1 (fixed): 750-1300 keys are rewritten with generations that are expired on arrival while their superseded generations are still on the device, so that recovery's retirement list is longer than one journal chunk (1024 extents); the first-level image is cut where every new generation is durable and no retirement has started, recovery runs traced and is cut after every one of its own fsyncs: each second-level image must reopen (real code and model) to the contents the first recovery reported -- no older generation of a key whose newest one expired may reappear"}
+
+
+REGISTRY["C04"]["teq"].append(_f1(4))
+REGISTRY["C11"]["teq"].append(_f1(11))
 
 
 def load_oracle_fails(outdir, limit=20):
